@@ -15,7 +15,7 @@ RULE = ('H-COLL: every sequence (ordered, without repetition) of length <= L ove
         '`ro += fresh parse` over the messages in ascending message-ID order; strict: the same exception type propagates '
         'and str(mc) equals the fold stopped there; non-strict: no exception, exactly one MosMergeNonStrictWarning per '
         'failing message, every other mosromgr warning as in the fold, str(mc) equals the fold skipping exactly the '
-        'failing messages. state = running order after each fold step; transition = one message of one sequence. Second route: '
+        'failing messages. state = running order after each fold step; transition = one message of one sequence. Plus every ordered pair of messages over one (thorough: three) message(s) of each of the 24 mergeable classes. Second route: '
         'TLC checks six invariants on every reachable state of tla/CollMerge.tla (N messages of kinds ok/fail/roDelete x '
         'strict/non-strict) and every reachable model state is replayed against the real MosCollection (applied set, '
         'completed flag, warning count, propagated exception must agree).')
@@ -168,6 +168,61 @@ def run_collection(ns, ctor, ro_text, texts, strict, tmp, store, order=None, all
     return out
 
 
+def mixed_messages(per_kind):
+    """Concrete messages of all 24 mergeable classes (k per class, resolvable and not) rendered against
+    the H-MIXED base running order; used for collection sequences over the full message alphabet."""
+    from .. import tree
+    from ..harnesses import HMixed
+    from ..monitors import _NullRes
+    h = HMixed(max_list=1, story_L=1, meta_subsets=1, layouts=('before',))
+    base = [t for t in h.initial_states() if tree.RoView(t).story_ids == ['AB', 'A', 'C']][0]
+    view = tree.RoView(base)
+    taken, msgs = Counter(), []
+    for c in h.menu(view, _NullRes()):
+        if taken[c['kind']] >= per_kind:
+            continue
+        taken[c['kind']] += 1
+        msgs.append((c['kind'], h.render(c, view)))
+    return base, msgs
+
+
+def mixed_worker(ns, items, res, opts):
+    """Sequences over the full message alphabet: MosCollection (strict / non-strict) vs the fold."""
+    prop = opts['prop']
+    base, msgs = opts['base'], opts['msgs']
+    tmp = tempfile.mkdtemp(prefix='mosmc-c09m-')
+    store = coll.FakeS3()
+    store.install(ns)
+    try:
+        for seq in items:
+            texts = [msgs[i][1].replace('<messageID>2000</messageID>', f'<messageID>{2000 + 10 * k}</messageID>', 1) for k, i in enumerate(seq)]
+            kinds = [msgs[i][0] for i in seq]
+            for strict in (True, False):
+                ref = coll.fold(ns, base, texts, strict)
+                got = run_collection(ns, 'strings', base, texts, strict, tmp, store)
+                res.transitions += len(texts)
+                res.extra['states'] += len(texts) + 1
+                res.extra['mixed_collections'] += 1
+                if ref['failed']:
+                    res.nontrivial += 1
+                res.by_outcome['mixed:' + str(got['exc'])] += 1
+                res.by_class['mixed:' + '>'.join(kinds)] += 1
+                bad = None
+                if got['exc'] != ref['exc']:
+                    bad = ('exception', f"merge raised {got['exc']}, the fold {ref['exc']}")
+                elif got['text'] != ref['text']:
+                    bad = ('result-differs', 'str(mc) differs from the sequential fold')
+                elif not strict and got['nonstrict'] != len(ref['failed']):
+                    bad = ('nonstrict-warning-count', f"{got['nonstrict']} MosMergeNonStrictWarning for {len(ref['failed'])} failing messages")
+                elif Counter(got['warns']) != Counter(ref['warns']):
+                    bad = ('other-warnings', f"warnings {got['warns']} vs fold {ref['warns']}")
+                if bad:
+                    explore.add_simple_finding(res, prop, f"MIXED:{bad[0]}:strict={strict}:{kinds[0]}",
+                                               f'messages {kinds} strict={strict}: {bad[1]}', ro=base, messages=texts)
+    finally:
+        shutil.rmtree(tmp, ignore_errors=True)
+
+
 def model_worker(ns, items, res, opts):
     """Conformance: replay every reachable state of the TLA+ model (tla/CollMerge.tla) against the
     real MosCollection.  A model state (kinds, strict, i, completed, applied, warned, raised) describes
@@ -241,6 +296,11 @@ def run(tier):
     else:
         seqs = list(sequences(names, 4)) + [s for s in sequences(names[:9], 5) if len(s) == 5]
     parts = [{'label': 'sequences', 'worker': worker, 'items': seqs, 'chunk': 40}]
+    base, msgs = mixed_messages(1 if tier == 'quick' else 3)
+    n = len(msgs)
+    mixed_seqs = [(i, j) for i in range(n) for j in range(n) if i != j]
+    parts.append({'label': 'sequences-over-all-24-classes', 'worker': mixed_worker, 'items': mixed_seqs, 'chunk': 60,
+                  'opts': {'base': base, 'msgs': msgs}})
     # second route: explicit-state model checking of a TLA+ model with TLC + conformance replay of
     # every reachable model state against the implementation
     from .. import tlc
